@@ -58,6 +58,8 @@ DataSets(name) ==
     [] name = "neg"    -> {Keep(DataAll, {x \in Vals : x < 0})}
     [] name = "pos"    -> {Keep(DataAll, {x \in Vals : x > 0})}
     [] name = "nonneg" -> {Keep(DataAll, {x \in Vals : x >= 0})}
+    [] name = "low"    -> {Keep(DataAll, {x \in Vals : -3 <= x /\ x <= 3})}   \* bit depth below the bounds' depth
+    [] name = "low1"   -> {Keep(DataAll, {x \in Vals : -1 <= x /\ x <= 1})}
     [] name = "single" -> {[c \in Cols |-> IF c = (x - Min) % NCols THEN x ELSE NoVal] : x \in Vals}
     [] name = "empty"  -> {[c \in Cols |-> NoVal]}
     [] name = "ties"   -> {[c \in Cols |-> IF c % 2 = 0 THEN xy[1] ELSE xy[2]] :
